@@ -89,6 +89,7 @@ def run(rep, tier):
         disagreements += d
         samples += s
         entry_rule(rep, ctx, f, sfx)
+        vmpure_rule(rep, ctx, sfx)
     rep.extra["programs"] = programs
     rep.extra["disagreements_checked"] = disagreements
     rep.extra["samples"] = samples[:24]
@@ -1167,6 +1168,33 @@ def arm_end_line(arm):
     sp = arm.get("sp", "")
     m = re.match(r".*?:(\d+):\d+-(\d+):\d+", sp)
     return int(m.group(2)) if m else hirq.line(arm["body"])
+
+
+def vmpure_rule(rep, ctx, sfx):
+    """The generated parser keeps no state between or across rule calls beyond the ParserState it is handed; the VM is
+    its interpreter and must not either."""
+    r = rep.rule("C02.VMPURE" + sfx, 1,
+                 "Vm is immutable while it parses: none of its fields has an interior-mutable type (Atomic*, Cell, RefCell, "
+                 "Mutex, RwLock, OnceCell) and its parsing methods take &self - a counter or cache kept in the Vm makes the "
+                 "outcome depend on what was parsed before (a leaked depth counter starts refusing rules after enough "
+                 "built-in calls), which generated code cannot reproduce")
+    adt = ctx.vm.adt(VM)
+    if adt is None:
+        r.lost("struct pest_vm::Vm")
+        return
+    CELLS = ("core::sync::atomic::", "core::cell::", "std::sync::Mutex", "std::sync::RwLock", "std::sync::poison::",
+             "std::sync::mutex::", "std::sync::rwlock::", "OnceCell", "OnceLock", "core::cell::once")
+    for v in adt["variants"]:
+        for f in v["fields"]:
+            r.instance("field:" + f["name"], "", f["ty"][:60])
+            if any(c_ in f["ty"] for c_ in CELLS) and "dyn " not in f["ty"].split("<")[0]:
+                r.violation("field:" + f["name"], "", "Vm::%s has the interior-mutable type %s: parsing through &self can "
+                            "change the Vm" % (f["name"], f["ty"][:60]))
+    for b in ctx.vm.bodies:
+        if b.get("impl_self") == VM and b["name"] in ("parse", "parse_rule", "parse_expr", "skip") and b.get("inputs"):
+            r.instance("receiver:" + b["name"], where(b["body"]), str(b["inputs"][0])[:30])
+            if str(b["inputs"][0]).startswith("&mut") or not str(b["inputs"][0]).startswith("&"):
+                r.violation("receiver:" + b["name"], where(b["body"]), "Vm::%s takes %s" % (b["name"], str(b["inputs"][0])[:30]))
 
 
 def entry_rule(rep, ctx, f, sfx):
